@@ -132,7 +132,7 @@ class PluginManager:
         split_method = method.split("/", maxsplit=1)
         if len(split_method) > 1:
             plugin = self._plugins[plugin_type].get(split_method[0].lower())
-            if plugin and plugin.is_supported(split_method[1]):
+            if plugin is not None and plugin.is_supported(split_method[1]):
                 return plugin
         else:
             if split_method[0] == "default":
